@@ -4,6 +4,10 @@ import Qhttp.Model.Socket
 
   The source is a byte string that is either random-access (`QBuffer`/`QFile`: `read`, `seek`,
   `pos`, `atEnd`) or sequential (data arrives in pieces: `readyRead`, then `readChannelFinished`).
+  A random-access source may already have been read from when the copier is started (`prePos`: its
+  position when the scenario begins; `start()` seeks only for a range start > 0).  A sequential
+  source may hold bytes that were never announced by a `readyRead()` of their own (`arriveQ`: for
+  example a last piece that comes together with the end of the stream).
   Device failures are parameters: open/seek fail flags, the index of the read / write call that
   returns -1.  `QTimer::singleShot(0, …)` is a pending call executed by the next `turn`.
   Observations use `Obs.misc`: tag 1 = bytes handed to the destination, 2 = finished(), 3 = error().
@@ -21,12 +25,15 @@ structure Cfg where
   seekFails    : Bool := false
   readFailAt   : Option Nat := none              -- 0-based index of the read() call that fails
   writeFailAt  : Option Nat := none              -- 0-based index of the write() call that fails
+  prePos       : Nat := 0                        -- random-access source: its position when the scenario begins
+                                                 -- (≤ |src|: a QBuffer opened for reading refuses a position beyond its size)
 deriving Repr, Inhabited
 
 inductive Ev
   | start | turn | stop
   | arrive (bytes : Bytes)      -- sequential source: a piece of data becomes available
   | eof                         -- sequential source: end of data
+  | arriveQ (bytes : Bytes)     -- sequential source: data is appended to its buffer, no readyRead() is emitted
 deriving Repr, Inhabited, DecidableEq
 
 inductive Pending | none | nextBlock | readyRead
@@ -118,11 +125,16 @@ def step (c : Cfg) (s : St) : Ev → St
   | .eof =>
     if !c.seq then s else
     if s.connected then onReadChannelFinished c s else s
+  | .arriveQ b =>
+    if !c.seq || s.srcClosed then s else { s with buffered := s.buffered ++ b }
 
 def stepK (c : Cfg) (sk : St × Nat) (e : Ev) : St × Nat :=
   (step c { sk.1 with log := sk.1.log ++ [Obs.ev sk.2] } e, sk.2 + 1)
 
-def run (c : Cfg) (evs : List Ev) : St := (evs.foldl (stepK c) ({}, 0)).1
+/-- the state a scenario begins in: nothing has happened but the random-access source stands at `prePos` -/
+def init (c : Cfg) : St := { pos := c.prePos }
+
+def run (c : Cfg) (evs : List Ev) : St := (evs.foldl (stepK c) (init c, 0)).1
 
 end Copier
 end Qhttp
